@@ -32,8 +32,8 @@ func note(name string, f externalFn) externalFn {
 
 func init() {
 	for k, v := range map[string]externalFn{
-		"bytes.Equal":     ext۰bytes۰Equal,
-		"bytes.IndexByte": ext۰bytes۰IndexByte,
+		"bytes.Equal":                          ext۰bytes۰Equal,
+		"bytes.IndexByte":                      ext۰bytes۰IndexByte,
 		"internal/bytealg.Equal":               ext۰bytes۰Equal,
 		"internal/bytealg.IndexByte":           ext۰bytes۰IndexByte,
 		"internal/bytealg.IndexByteString":     ext۰strings۰IndexByte,
@@ -66,41 +66,53 @@ func init() {
 		"math.Float32frombits":                 ext۰math۰Float32frombits,
 		"math.Float64bits":                     ext۰math۰Float64bits,
 		"math.Float64frombits":                 ext۰math۰Float64frombits,
-		"math.Abs":                             func(fr *frame, args []value) value { return math.Abs(cf64(args[0])) },
-		"math.Floor":                           func(fr *frame, args []value) value { return math.Floor(cf64(args[0])) },
-		"math.Inf":                             func(fr *frame, args []value) value { return math.Inf(int(asInt64(args[0]))) },
-		"math.NaN":                             func(fr *frame, args []value) value { return math.NaN() },
-		"strconv.ParseFloat":                   note("strconv.ParseFloat", ext۰strconv۰ParseFloat),
-		"strconv.FormatFloat":                  note("strconv.FormatFloat", ext۰strconv۰FormatFloat),
-		"strconv.AppendFloat":                  note("strconv.AppendFloat", ext۰strconv۰AppendFloat),
-		"fmt.Errorf":                           note("fmt.Errorf", ext۰fmt۰Errorf),
-		"fmt.Sprintf":                          note("fmt.Sprintf", ext۰fmt۰Sprintf),
-		"fmt.Sprint":                           note("fmt.Sprint", ext۰fmt۰Sprint),
-		"fmt.Println":                          func(fr *frame, args []value) value { return tuple{0, iface{}} },
-		"fmt.Printf":                           func(fr *frame, args []value) value { return tuple{0, iface{}} },
-		"errors.Is":                            note("errors.Is", ext۰errors۰Is),
-		"errors.As":                            note("errors.As", ext۰errors۰As),
-		"errors.Unwrap":                        ext۰errors۰Unwrap,
-		"sort.Slice":                           note("sort.Slice", ext۰sort۰Slice),
-		"sort.SliceStable":                     note("sort.SliceStable", ext۰sort۰Slice),
-		"sort.Strings":                         note("sort.Strings", ext۰sort۰Strings),
-		"sort.Ints":                            note("sort.Ints", ext۰sort۰Ints),
-		"(*sync.Mutex).Lock":                   ext۰Mutex۰Lock,
-		"(*sync.Mutex).Unlock":                 ext۰Mutex۰Unlock,
-		"(*sync.RWMutex).Lock":                 ext۰Mutex۰Lock,
-		"(*sync.RWMutex).Unlock":               ext۰Mutex۰Unlock,
-		"(*sync.RWMutex).RLock":                ext۰Mutex۰Lock,
-		"(*sync.RWMutex).RUnlock":              ext۰Mutex۰Unlock,
-		"(*sync.WaitGroup).Add":                ext۰WaitGroup۰Add,
-		"(*sync.WaitGroup).Done":               ext۰WaitGroup۰Done,
-		"(*sync.WaitGroup).Wait":               ext۰WaitGroup۰Wait,
-		"runtime.Gosched":                      func(fr *frame, args []value) value { fr.i.yield("gosched"); return nil },
-		"runtime.GC":                           func(fr *frame, args []value) value { return nil },
-		"runtime.KeepAlive":                    func(fr *frame, args []value) value { return nil },
-		"time.Sleep":                           func(fr *frame, args []value) value { fr.i.yield("sleep"); return nil },
-		ggqlPath + ".IsNil":                    note("ggql.IsNil", ext۰ggql۰IsNil),
-		"os.Getenv":                            func(fr *frame, args []value) value { return "" },
-		"unicode/utf8.DecodeRuneInString":      nil,
+		"math.Abs": func(fr *frame, args []value) value {
+			return fr.i.fpUnary(args[0], func(t *Term) *Term { return fr.i.tt.FAbs(t) })
+		},
+		"math.Trunc": func(fr *frame, args []value) value {
+			return fr.i.fpUnary(args[0], func(t *Term) *Term { return fr.i.tt.FRound(t, 0) })
+		},
+		"math.Floor": func(fr *frame, args []value) value {
+			return fr.i.fpUnary(args[0], func(t *Term) *Term { return fr.i.tt.FRound(t, 1) })
+		},
+		"math.Ceil": func(fr *frame, args []value) value {
+			return fr.i.fpUnary(args[0], func(t *Term) *Term { return fr.i.tt.FRound(t, 2) })
+		},
+		"math.IsNaN":                      func(fr *frame, args []value) value { return fr.i.mkBool(fr.i.tt.FIsNaN(fr.i.term(args[0]))) },
+		"math.IsInf":                      ext۰math۰IsInf,
+		"math.Inf":                        func(fr *frame, args []value) value { return math.Inf(int(asInt64(args[0]))) },
+		"math.NaN":                        func(fr *frame, args []value) value { return math.NaN() },
+		"strconv.ParseFloat":              note("strconv.ParseFloat", ext۰strconv۰ParseFloat),
+		"strconv.FormatFloat":             note("strconv.FormatFloat", ext۰strconv۰FormatFloat),
+		"strconv.AppendFloat":             note("strconv.AppendFloat", ext۰strconv۰AppendFloat),
+		"fmt.Errorf":                      note("fmt.Errorf", ext۰fmt۰Errorf),
+		"fmt.Sprintf":                     note("fmt.Sprintf", ext۰fmt۰Sprintf),
+		"fmt.Sprint":                      note("fmt.Sprint", ext۰fmt۰Sprint),
+		"fmt.Println":                     func(fr *frame, args []value) value { return tuple{0, iface{}} },
+		"fmt.Printf":                      func(fr *frame, args []value) value { return tuple{0, iface{}} },
+		"errors.Is":                       note("errors.Is", ext۰errors۰Is),
+		"errors.As":                       note("errors.As", ext۰errors۰As),
+		"errors.Unwrap":                   ext۰errors۰Unwrap,
+		"sort.Slice":                      note("sort.Slice", ext۰sort۰Slice),
+		"sort.SliceStable":                note("sort.SliceStable", ext۰sort۰Slice),
+		"sort.Strings":                    note("sort.Strings", ext۰sort۰Strings),
+		"sort.Ints":                       note("sort.Ints", ext۰sort۰Ints),
+		"(*sync.Mutex).Lock":              ext۰Mutex۰Lock,
+		"(*sync.Mutex).Unlock":            ext۰Mutex۰Unlock,
+		"(*sync.RWMutex).Lock":            ext۰Mutex۰Lock,
+		"(*sync.RWMutex).Unlock":          ext۰Mutex۰Unlock,
+		"(*sync.RWMutex).RLock":           ext۰Mutex۰Lock,
+		"(*sync.RWMutex).RUnlock":         ext۰Mutex۰Unlock,
+		"(*sync.WaitGroup).Add":           ext۰WaitGroup۰Add,
+		"(*sync.WaitGroup).Done":          ext۰WaitGroup۰Done,
+		"(*sync.WaitGroup).Wait":          ext۰WaitGroup۰Wait,
+		"runtime.Gosched":                 func(fr *frame, args []value) value { fr.i.yield("gosched"); return nil },
+		"runtime.GC":                      func(fr *frame, args []value) value { return nil },
+		"runtime.KeepAlive":               func(fr *frame, args []value) value { return nil },
+		"time.Sleep":                      func(fr *frame, args []value) value { fr.i.yield("sleep"); return nil },
+		ggqlPath + ".IsNil":               note("ggql.IsNil", ext۰ggql۰IsNil),
+		"os.Getenv":                       func(fr *frame, args []value) value { return "" },
+		"unicode/utf8.DecodeRuneInString": nil,
 	} {
 		if v != nil {
 			externals[k] = v
@@ -109,6 +121,26 @@ func init() {
 	for k, v := range reflectExternals {
 		externals[k] = v
 	}
+}
+
+func (i *interpreter) fpUnary(v value, f func(*Term) *Term) value {
+	return i.mk(kindOf(v), f(i.term(v)))
+}
+
+func ext۰math۰IsInf(fr *frame, args []value) value {
+	i := fr.i
+	tt := i.tt
+	f := i.term(args[0])
+	sign := asInt64(args[1])
+	inf := tt.FIsInf(f)
+	zero := tt.FPConst(f.S, 0)
+	switch {
+	case sign > 0:
+		return i.mkBool(tt.And(inf, tt.FCmp(OFLt, zero, f)))
+	case sign < 0:
+		return i.mkBool(tt.And(inf, tt.FCmp(OFLt, f, zero)))
+	}
+	return i.mkBool(inf)
 }
 
 func cf64(v value) float64 {
